@@ -38,7 +38,8 @@ POLAR_H = {"HG", "HG1", "HH", "HZ1", "HZ2", "HZ3", "HD1", "HE2", "HD2", "HE1", "
 def case(draw):
     mode = draw(st.sampled_from(MODES))
     wild = draw(st.integers(0, 2)) == 0
-    desc = draw(e2e.structure(max_chains=3, nmax=5, wild=wild, contact=True, hyd="none",
+    desc = draw(e2e.structure(max_chains=3, nmax=5, wild=wild, contact=True,
+                              hyd=draw(st.sampled_from(["none", "none", None])), variants=0.3,
                               missing=draw(st.booleans())))  # fmt: skip
     return dict(part="e2e", desc=desc, ff=draw(st.sampled_from(strat.FFS)), opts=list(mode), wild=wild)
 
@@ -108,6 +109,11 @@ def check(case):
 
         clash_free = intra_residue_clash(hv_in, bonds, limit=2.5) is None
         swap = {"OD1": "OD2", "OD2": "OD1", "OE1": "OE2", "OE2": "OE1"}
+        hswap = {"HD2": "HD1", "HD1": "HD2", "HE2": "HE1", "HE1": "HE2"} if topo.BASE.get(rn, rn) in ("ASP", "GLU") else {}
+        bonds_full = {}
+        for pn in ("ASH", "GLH"):
+            if pn in topo.PATCH:
+                bonds_full.update({k: list(v) for k, v in topo.PATCH[pn]["bonds"].items()})
         acid = topo.BASE.get(rn, rn) in ("ASP", "GLU")
         for x in added:
             if x not in tmpl:
@@ -121,18 +127,39 @@ def check(case):
                     continue
                 d = geom.dist(out[x], out[p])
                 d0 = geom.dist(tmpl[x], tmpl[p])
-                if acid and (x in swap or p in swap):
-                    xs, ps = swap.get(x, x), swap.get(p, p)
-                    if xs in tmpl and ps in tmpl:
+                if acid and (x in swap or p in swap or x in hswap):
+                    # the acid proton must sit on the oxygen NAMED *2 (its template parent); the
+                    # optimiser may have built it from the *1 template and exchanged the names, so
+                    # the other BONDED template pair is the only alternative reference
+                    xs, ps = hswap.get(x, swap.get(x, x)), swap.get(p, p)
+                    if xs in tmpl and ps in tmpl and ps in bonds_full.get(xs, [ps] if topo.heavy(xs) else []):
                         alt = geom.dist(tmpl[xs], tmpl[ps])
                         if abs(d - alt) < abs(d - d0):
                             d0 = alt
-                if abs(d - d0) > tol_len:
+                # distortion already present in the input: a stretched/compressed bond of the parent
+                    # shifts an atom fitted onto (parent, neighbour) by half the length difference
+                ldist = 0.0
+                for q in bonds.get(p, []):
+                    # (the output atom called p may be the input atom called swap(p), see the name exchange)
+                    for in_p in {p, swap.get(p, p)} if acid else {p}:
+                        for nm_p, nm_q in ((p, q), (swap.get(p, p), swap.get(q, q))):
+                            if q in names and in_p in names and nm_p in tmpl and nm_q in tmpl and topo.heavy(q):
+                                ldist = max(ldist, abs(geom.dist(names[in_p], names[q]) - geom.dist(tmpl[nm_p], tmpl[nm_q])))
+                if abs(d - d0) > tol_len + 0.6 * ldist:
                     kind = "heavy" if topo.heavy(x) else "hydrogen"
                     res.bad(f"C05:bond-length:{kind}{suffix}",
                             f"{rn} ({pos}, {mode}): {x}-{p} {d:.3f} A, template {d0:.3f} A")  # fmt: skip
                     continue
                 tol = max(tol_ang, 6.0) if (x in ACID_H and topo.BASE.get(rn, rn) in ("ASP", "GLU")) else tol_ang
+                if "window" in ch:
+                    # distortion already present in the input around this parent atom
+                    qs = [q for q in bonds.get(p, []) if q in names and q in tmpl and topo.heavy(q)]
+                    dmax = 0.0
+                    for ia in range(len(qs)):
+                        for ib in range(ia + 1, len(qs)):
+                            dmax = max(dmax, abs(geom.angle(names[qs[ia]], names[p], names[qs[ib]])
+                                                 - geom.angle(tmpl[qs[ia]], tmpl[p], tmpl[qs[ib]])))  # fmt: skip
+                    tol = tol + 1.5 * dmax
                 for q in bonds.get(p, []):
                     if q == x or q not in out or q not in tmpl:
                         continue
